@@ -49,6 +49,9 @@ inductive Err where
   | fatal                       -- the process exits non-zero at once (os.Exit in the interpreter, a writer error)
   | raise                       -- a run-time error RETURNED by a statement: it unwinds to the nearest user-function
                                 -- call, whose value becomes an error value; at top level the process exits non-zero
+  | raiseDirty                  -- the same, RETURNED by an indexed assignment that failed part-way: the real code may
+                                -- already have auto-created outer levels; exact at top level (the process exits), but the
+                                -- state a catching function call would go on with is not modelled
   | unmodelled (why : String)
   | fuel
   deriving Repr, Inhabited
@@ -124,6 +127,24 @@ def indexRead (base idx : DV) : Res DV :=
   | .s .absent => pure absent
   | _ => pure error
 
+/-- A MAP indexed by an array: the array is a path of keys through nested maps (`m[["a", "b"]]` is
+`m["a"]["b"]`); a level that is not a map while keys remain is an error; the empty path is absent. -/
+def indexPathMap : DV → List DV → Res DV
+  | _, [] => pure absent
+  | .map kvs, i :: rest =>
+    match i with
+    | .s (.int _) | .s (.str _) => do
+      let k ← keyOf i
+      match mget kvs k with
+      | none => pure absent
+      | some c => if rest.isEmpty then pure c else
+        match c with
+        | .map _ => indexPathMap c rest
+        | _ => pure error
+    | .arr _ => throw (.unmodelled "a path inside a path")
+    | _ => pure error
+  | _, _ :: _ => pure error
+
 /-! ### indexed assignment: auto-create (maps), auto-extend (arrays), negative aliases -/
 
 def listSet : List DV → Nat → DV → List DV
@@ -151,35 +172,43 @@ def putPath : DV → List DV → DV → Res DV
   | .map kvs, [idx], v =>
     match keyText idx with
     | some k => pure (.map (mput kvs k v))
-    | none => throw .raise
+    | none => throw .raiseDirty
   | .map kvs, idx :: nxt :: rest, v =>
-    if !strictKey idx then throw .raise
+    if !strictKey idx then throw .raiseDirty
     else
       let k := (keyText idx).getD []
       match mget kvs k with
       | some child => do let c ← putPath child (nxt :: rest) v; pure (.map (mput kvs k c))
       | none =>
         if strictKey nxt then do let c ← putPath (.map []) (nxt :: rest) v; pure (.map (mput kvs k c))
-        else throw .raise
+        else throw .raiseDirty
   | .arr xs, idx :: rest, v =>
     match idx with
     | .s (.int i) =>
-      if i == 0 then throw .raise
+      if i == 0 then throw .raiseDirty
       else match unalias xs.length i with
         | some z =>
-          if rest.isEmpty then pure (.arr (listSet xs z v))
-          else do let c ← putPath (xs.getD z absent) rest v; pure (.arr (listSet xs z c))
+          -- a slot of the wrong kind for the next index is overwritten: a string index wants a map, an int an array
+          match rest with
+          | [] => pure (.arr (listSet xs z v))
+          | .s (.str _) :: _ => do
+            let c ← putPath (match xs.getD z absent with | .map kvs => .map kvs | _ => .map []) rest v
+            pure (.arr (listSet xs z c))
+          | .s (.int _) :: _ => do
+            let c ← putPath (match xs.getD z absent with | .arr ys => .arr ys | _ => .arr []) rest v
+            pure (.arr (listSet xs z c))
+          | _ => throw .raiseDirty
         | none =>
-          if i < 0 then throw .raise
+          if i < 0 then throw .raiseDirty
           else do
             -- the new slot starts as null; a deeper index turns it into a map (string index) or an array (int index)
             let slot ← (match rest with
               | [] => pure v
               | .s (.str _) :: _ => putPath (.map []) rest v
               | .s (.int _) :: _ => putPath (.arr []) rest v
-              | _ => throw .raise)
+              | _ => throw .raiseDirty)
             pure (.arr (xs ++ List.replicate (i.toNat - xs.length - 1) (.s .null) ++ [slot]))
-    | _ => throw .raise
+    | _ => throw .raiseDirty
   | _, _, _ => throw (.unmodelled "indexed assignment into a scalar")
 
 /-- `RemoveIndexed`: unset of a path; a missing path is a no-op. Removing an array element shifts. -/
@@ -537,6 +566,32 @@ end
 /-- The error value of a type-error on argument `a`. Its text renders `a`: a collection holding an
 absent cannot be rendered, and the process exits instead. -/
 def errOn (a : DV) : Res DV := if a.isColl && hasAbsent a then throw .fatal else pure error
+
+/-- `x[[n]]` and `x[[[n]]]` on any map or array (as `$[[n]]` and `$[[[n]]]` on the record): the NAME at
+position n (for an array: the 1-up position itself) and the VALUE at position n; out of bounds is absent.
+`none`: the index is not of that shape and ordinary indexing applies. -/
+def positionalRead (bv iv : DV) : Option (Res DV) :=
+  match iv with
+  | .arr [.arr [idx]] =>
+    match idx with
+    | .s (.int i) =>
+      match bv with
+      | .arr xs => some (pure (match unalias xs.length i with | some z => xs.getD z absent | none => absent))
+      | .map kvs => some (pure (match unalias kvs.length i with
+          | some z => (kvs[z]?.map (fun kv => kv.2)).getD absent | none => absent))
+      | _ => none
+    | _ => some (errOn idx)
+  | .arr [.arr _] => none
+  | .arr [inner] =>
+    match inner with
+    | .s (.int i) =>
+      match bv with
+      | .arr xs => some (pure (match unalias xs.length i with | some z => vint ((z : Int) + 1) | none => absent))
+      | .map kvs => some (pure (match unalias kvs.length i with
+          | some z => (kvs[z]?.map (fun kv => vstr kv.1)).getD absent | none => absent))
+      | _ => none
+    | _ => some (errOn inner)
+  | _ => none
 
 /-! ### operators -/
 
@@ -926,7 +981,10 @@ def bodyValue (blk : M Sig) : M DV :=
   tryCatch
     (do let sig ← blk
         pure (match sig with | .ret (some v) => v | _ => absent))
-    (fun e => match e with | .raise => pure error | e => throw e)
+    (fun e => match e with
+      | .raise => pure error
+      | .raiseDirty => throw (.unmodelled "the state left by an indexed assignment that failed part-way inside a function")
+      | e => throw e)
 
 def andThen {α β} (a : M α) (b : M β) : M β := do let _ ← a; b
 
@@ -1011,9 +1069,15 @@ mutual
       | .index b i => do
         let bv ← eval p fuel b
         let iv ← eval p fuel i
-        let r ← liftR (indexRead bv iv)
-        -- the error's text renders the index: a collection holding an absent cannot be rendered
-        if r.isError && iv.isColl && hasAbsent iv then failM .fatal else pure r
+        -- x[[n]] / x[[[n]]] are positional; otherwise a MAP indexed by an array walks a path of keys
+        let r ← liftR (match positionalRead bv iv with
+          | some r => r
+          | none =>
+            match bv, iv with
+            | .map _, .arr path => indexPathMap bv path
+            | _, _ => indexRead bv iv)
+        -- an ARRAY's index error renders the index: a collection holding an absent cannot be rendered (a map's does not)
+        if r.isError && iv.isColl && hasAbsent iv && (match bv with | .arr _ => true | _ => false) then failM .fatal else pure r
       | .slice b lo hi => do
         let bv ← eval p fuel b
         let l ← eval p fuel lo
@@ -1054,13 +1118,20 @@ mutual
           match lclass av with
           | .f => pure (vbool false)            -- short circuit: the right side is not evaluated
           | .error => pure av
-          | ca => do let bv ← eval p fuel b; pure (logicalRest ca (lclass bv))
+          | ca => do
+            let bv ← eval p fuel b
+            let r := logicalRest ca (lclass bv)
+            -- the type-error's text renders the operands
+            if r.isError && (hasAbsent av && av.isColl || hasAbsent bv && bv.isColl) then failM (.unmodelled "type-error text of a collection holding an absent") else pure r
         else if op == "||" then do
           let av ← eval p fuel a
           match lclass av with
           | .t => pure (vbool true)
           | .error => pure av
-          | ca => do let bv ← eval p fuel b; pure (logicalRest ca (lclass bv))
+          | ca => do
+            let bv ← eval p fuel b
+            let r := logicalRest ca (lclass bv)
+            if r.isError && (hasAbsent av && av.isColl || hasAbsent bv && bv.isColl) then failM (.unmodelled "type-error text of a collection holding an absent") else pure r
         else if op == "^^" then do
           let av ← eval p fuel a
           let bv ← eval p fuel b
@@ -1510,6 +1581,11 @@ mutual
     | 0, _, _, _, _, _ => failM .fuel
     | _ + 1, _, _, _, [], _ => pure .normal
     | fuel + 1, ks, v, keysSoFar, (k, val) :: rest, body => do
+      -- the key variable of THIS level is bound here, once per entry of this level (deeper iterations
+      -- find it as the body left it)
+      let s ← get
+      let st1 ← liftR (Stack.setOpt s.stack (ks[keysSoFar.length]?) k)
+      set { s with stack := st1 }
       let sig ← forMultiOne p fuel ks v (keysSoFar ++ [k]) val body
       match sig with
       | .brk => pure .brk
@@ -1523,8 +1599,7 @@ mutual
     | fuel + 1, ks, v, here, val, body =>
       if here.length == ks.length then do
         let s ← get
-        let st1 ← liftR ((ks.zip here).foldlM (fun (st : Stack) (kn, kv) => st.setAtScope kn kv) s.stack)
-        let st2 ← liftR (Stack.setAtScope st1 v val)
+        let st2 ← liftR (Stack.setAtScope s.stack v val)
         set { s with stack := st2 }
         execBlock p fuel body
       else
@@ -1752,6 +1827,7 @@ def run (p : Prog) (cfg : Run) (fuel : Nat) (filename : Bytes) (recs : List Fiel
   match r with
   | .ok _ => renderOut s.out
   | .error .raise => throw .fatal
+  | .error .raiseDirty => throw .fatal
   | .error e => throw e
 
 end DSL
